@@ -335,6 +335,15 @@ def generate(tier, rng):
             b2.tcp.append(fl)
             ORACLE[fl[1]] = ({n1: rq1, s1: rs1, n2: rq2, s2: rs2}[segs[0]], "answer", True)
     yield from b2.scripts()
+    # the peer's advertised receive window is not an input of the responder
+    b3 = Batch("small-windows")
+    for win in (0, 1, 100, 229, 400, 451, 452):
+        for p_, rq_ in ((n1, rq1), (s1, rs1), (n2, rq2), (s2, rs2)):
+            sportm += 1
+            fl = gens.handshake(b3.cfg.key, gens.PEER4, gens.SELF4, sportm, 445, [p_], window=win)
+            b3.tcp.append(fl)
+            ORACLE[fl[-1]] = (rq_, "answer", True)
+    yield from b3.scripts()
     # G. NetBIOS header bytes
     b = Batch("nbt-header")
     for typ, fl, ln in ((0, 0, None), (0, 1, None), (0x81, 0, None), (0, 0, 0), (0, 0, 0xffff), (0x85, 0, 4)):
